@@ -11,7 +11,7 @@ from geneticengine.grammar.grammar import INF_VALUE, Grammar
 from geneticengine.random.sources import RandomSource
 from geneticengine.solutions.tree import GengyList, LocalSynthesisContext, TreeNode
 from geneticengine.representations.tree.utils import relabel_nodes_of_trees
-from geneticengine.grammar.utils import get_arguments, is_builtin_class_instance, is_generic_tuple
+from geneticengine.grammar.utils import get_arguments, is_abstract, is_builtin_class_instance, is_generic_tuple
 from geneticengine.grammar.utils import is_union, get_generic_parameters
 from geneticengine.grammar.utils import get_generic_parameter
 from geneticengine.grammar.utils import is_generic_list
@@ -308,6 +308,9 @@ def create_node(
                 except SynthesisException:
                     compatible_productions.remove(rule)
             raise SynthesisException(f"Could not find any suitable alternative for {starting_symbol}")
+        elif is_abstract(starting_symbol):
+            # an abstract type without registered productions cannot be instantiated
+            raise SynthesisException(f"No productions available for abstract type {starting_symbol}")
         else:
             # Normal concrete type (Production)
             args = []
